@@ -139,6 +139,9 @@ struct htp_connp_t {
      */
     bstr *in_header;
 
+    /** Set when the request header held in in_header was continued on a further line (folded). */
+    int in_header_folded;
+
     /** Ongoing inbound transaction. */
     htp_tx_t *in_tx;
 
